@@ -1,4 +1,4 @@
 SPECIFICATION Spec
-CONSTANTS MaxLen = 2  MaxV = 3  Wts = {1, 2}  CoSort = TRUE  ZerosFirst = FALSE  PosRule = "mid"  TieByWeight = TRUE  SharedPos = FALSE  StaleDelta = FALSE  StalePositions = TRUE  HistLen = 2
+CONSTANTS MaxLen = 2  MaxV = 3  Wts = {1, 2}  CoSort = TRUE  ZerosFirst = FALSE  PosRule = "mid"  TieByWeight = TRUE  SharedPos = FALSE  StaleDelta = FALSE  StalePositions = TRUE  HistLen = 1
 CHECK_DEADLOCK FALSE
 INVARIANT PositionsAfterRanking
